@@ -214,6 +214,13 @@ def check_C18(run):
     run.model("MC_Time", "MC_Time_parse_thorough" if run.thorough() else "MC_Time_parse_quick")
     out, meta = run.drive("C18")
     total, rejected, states, _ = V.judge(run.scratch, "Trace_Codec", out)
+    # the same driver in a process whose local zone has daylight saving: what a timestamp parses to does not depend on it
+    out2, meta2 = run.drive("C18TZ", extra_env={"TZ": ["Europe/London", "America/New_York", "Australia/Lord_Howe"][run.seed % 3]})
+    total2, rejected2, states2, _ = V.judge(run.scratch, "Trace_Codec", out2)
+    for r in rejected2:
+        r["shard"] = "../out-C18TZ/" + r["shard"]
+    rejected = rejected + rejected2
+    total, states = total + total2, states + states2
     cov = std_cov(run, meta, total, states,
                   "grammar-directed grid (years 0000..9999, month/day/hour boundaries, fraction lengths 0,1,3,6,9,10,12, '.' and ',', Z and +-hh:mm up to 23:59, date-only), "
                   "format/parse identity on seeded random times, random valid strings with random fraction lengths, and ~1,000 damaged strings (no-panic clause); "
